@@ -19,7 +19,19 @@ pub struct C17;
 pub enum Case {
     /// triangle p1, p2 = p1 + s*d1, p3 = p1 + s*(t*d1 + h*d2); images under `motion`; one image point optionally
     /// moved by `delta` metres along direction `dir`
-    Triple { p1: [f64; 3], s: f64, d1: [f64; 3], d2: [f64; 3], t: f64, h: f64, motion: IsoSpec, perturb: Option<(u8, [f64; 3], f64)> },
+    Triple {
+        p1: [f64; 3],
+        s: f64,
+        d1: [f64; 3],
+        d2: [f64; 3],
+        t: f64,
+        h: f64,
+        motion: IsoSpec,
+        perturb: Option<(u8, [f64; 3], f64)>,
+        /// the motion is the rotation of `motion` about an axis through the first point (a pallet turned about its taught corner): the first image is exactly the first point
+        #[serde(default)]
+        pivot: bool,
+    },
     /// exactly collinear points from small integers; source=true: collinear sources with congruent targets;
     /// source=false: collinear targets with a thin source triangle (height `thin` metres)
     Collinear { source: bool, base: [i8; 3], dir: [i8; 3], k: [i8; 3], motion: IsoSpec, thin: f64 },
@@ -54,7 +66,7 @@ impl Property for C17 {
         "C17"
     }
     fn rule(&self) -> String {
-        "point triples at scales 1e-2..1e2 m, up to 1e3 m from the origin, triangle height/base from 1 down to 1e-6 (one in four with an isosceles corner at the first point), images under random rigid motions; one image point perturbed by |delta| in {0, 1 mm, 4.9 mm, 5.1 mm, 2 cm, random} \
+        "point triples at scales 1e-2..1e2 m, up to 1e3 m from the origin, triangle height/base from 1 down to 1e-6 (one in four with an isosceles corner at the first point), images under random rigid motions (15 % of them rotations about the first point, which then is its own image bit for bit); one image point perturbed by |delta| in {0, 1 mm, 4.9 mm, 5.1 mm, 2 cm, random} \
          (the oracle recomputes the three mutual-distance differences; 1e-9 guard around 5 mm); exactly collinear sources / targets from small-integer coordinates; Frame::translation; forward_transformed over robots x frames x joints x previous (one case in three after the same joints were replayed on a frame around another robot). \
          Non-trivial: an unperturbed triple whose conditioning bound is below 1e-3 (frame compared with the generating motion), a decided perturbed triple, a collinear triple, or a forward_transformed call with >= 1 answer."
             .into()
@@ -91,8 +103,9 @@ impl Property for C17 {
             ],
             iso_strategy(3.0),
             prop_oneof![3 => Just(None), 4 => (0u8..3, vec3(1.0), delta).prop_map(Some)],
+            prop::bool::weighted(0.15),
         )
-            .prop_map(|(p1, s, d1, d2, (t, h), motion, perturb)| Case::Triple { p1, s, d1, d2, t, h, motion, perturb });
+            .prop_map(|(p1, s, d1, d2, (t, h), motion, perturb, pivot)| Case::Triple { p1, s, d1, d2, t, h, motion, perturb, pivot });
         let small = || prop::array::uniform3(-5i8..=5);
         let coll = (any::<bool>(), small(), small(), small(), iso_strategy(3.0), prop_oneof![Just(1e-3), Just(1e-4), 1e-5..2e-3f64])
             .prop_map(|(source, base, dir, k, motion, thin)| Case::Collinear { source, base, dir, k, motion, thin });
@@ -106,7 +119,7 @@ impl Property for C17 {
     }
     fn check(&self, c: &Case, ctx: &mut Ctx) -> Res {
         match c {
-            Case::Triple { p1, s, d1, d2, t, h, motion, perturb } => {
+            Case::Triple { p1, s, d1, d2, t, h, motion, perturb, pivot } => {
                 let u = unit_or(d1, [1.0, 0.0, 0.0]);
                 // v: unit vector perpendicular to u
                 let mut v = sub(d2, &scale(&u, dot(d2, &u)));
@@ -118,8 +131,15 @@ impl Property for C17 {
                 }
                 let v = scale(&v, 1.0 / norm(&v));
                 let p = [*p1, add(p1, &scale(&u, *s)), add(p1, &add(&scale(&u, s * t), &scale(&v, s * h)))];
-                let m = motion.iso();
+                let mut m = motion.iso();
                 let mut q = [m.apply(&p[0]), m.apply(&p[1]), m.apply(&p[2])];
+                if *pivot {
+                    // rotation about the first point: q_i = p1 + R (p_i - p1); the first image is the first point itself, bit for bit
+                    let rot = Iso { r: m.r, p: [0.0; 3] };
+                    m = Iso { r: m.r, p: sub(p1, &rot.apply(p1)) };
+                    q = [*p1, add(p1, &rot.apply(&sub(&p[1], p1))), add(p1, &rot.apply(&sub(&p[2], p1)))];
+                    ctx.class("triple:motion that leaves the first point exactly in place");
+                }
                 if let Some((which, dir, delta)) = perturb {
                     let w = (*which % 3) as usize;
                     let d = unit_or(dir, [0.0, 0.0, 1.0]);
